@@ -1,6 +1,6 @@
 CONSTANTS
   NDocs = 120
-  NOperators = 29
+  NOperators = 35
   MaxSite = 14
 INIT Init
 NEXT Next
